@@ -571,6 +571,39 @@ fn inline(rng: &mut Rng, n: usize, sink: &mut Sink, niche: bool) {
         if size_of::<LeanString>() != 16 || size_of::<Option<LeanString>>() != 16 || align_of::<LeanString>() != 8 {
             sink.fail(&["C20"], "LeanString / Option<LeanString> are not two machine words".into());
         }
+        // every value a *byte-accepting* safe constructor can return for inputs of 15..=17 bytes with every possible
+        // last byte (and every possible 16th byte): whatever it accepts or repairs, the result is valid UTF-8 and
+        // `Some(v)` / `Some(Some(v))` are not read back as `None` / `Some(None)`
+        for total in [15usize, 16, 17] {
+            for prefix_kind in 0..2 {
+                for b in 0..=255u8 {
+                    for pos_from_end in [1usize, 2] {
+                        let mut bytes: Vec<u8> = if prefix_kind == 0 {
+                            (0..total).map(|i| b'a' + (i % 26) as u8).collect()
+                        } else {
+                            "é€é€é€é€é€é€".bytes().take(total).collect()
+                        };
+                        let k = total - pos_from_end;
+                        bytes[k] = b;
+                        let mut vals: Vec<(&str, LeanString)> = vec![("from_utf8_lossy", LeanString::from_utf8_lossy(&bytes))];
+                        if let Ok(v) = LeanString::from_utf8(&bytes) {
+                            if std::str::from_utf8(&bytes).is_err() {
+                                sink.fail(&["C20", "C16"], format!("from_utf8 accepted the invalid input {}", hex(&bytes)));
+                            }
+                            vals.push(("from_utf8", v));
+                        }
+                        for (how, v) in vals {
+                            sink.oracle.evaluations += 1;
+                            let o = Some(v.clone());
+                            let oo = Some(Some(v.clone()));
+                            if o.is_none() || oo.as_ref().map(|x| x.is_none()).unwrap_or(true) || std::str::from_utf8(v.as_bytes()).is_err() {
+                                sink.fail(&["C20"], format!("{how}({}) returned a value whose Option wrapping reads back as None, or that is not UTF-8: {}", hex(&bytes), hex(v.as_bytes())));
+                            }
+                        }
+                    }
+                }
+            }
+        }
         for l in [17usize, 18, 100, 255, 256, 257, 65535, 65536, 70000] {
             let s = LeanString::from(gn::text_of_len(rng, l).as_str());
             let st = LeanString::from_static_str(STATIC_TEXTS[l % 4]);
@@ -960,6 +993,24 @@ fn ints(rng: &mut Rng, n: usize, sink: &mut Sink) {
             for dd in -3..=3 {
                 vals.push(q + dd);
                 vals.push(-q + dd);
+            }
+        }
+        // q * 10^m + r for the chunk sizes digit-peeling loops use (10^2, 10^4, 10^8, 10^16), remainders at both ends of a
+        // chunk (0, 1, 10^m - 1: runs of nines) and quotients at the top of the type, in the middle and at random: an
+        // inexact division or a wrong carry between chunks shows only for such values
+        for m in [2u32, 4, 8, 16] {
+            let c = 10i128.pow(m);
+            let top = hi / c;
+            let mut qs: Vec<i128> = vec![top, top - 1, top / 2, top / 3 + 1, 1, 9, 10, 99];
+            for _ in 0..(if n >= 4 { 400 } else { 40 }) {
+                qs.push(((rng.next() as u128) % (top.max(1) as u128 + 1)) as i128);
+            }
+            for q in qs {
+                for r in [0i128, 1, c - 1, c - 2, c / 10, c / 10 - 1] {
+                    let v = q * c + r;
+                    vals.push(v);
+                    vals.push(-v);
+                }
             }
         }
         if ty == "u8" || ty == "i8" || ty == "u16" || ty == "i16" {
